@@ -8,6 +8,8 @@ from sym import SpecLib
 import c_vector
 import c_point
 import c_matrix
+import c_quat
+import sym
 
 
 def unit_C03(src, model='R'):
@@ -90,6 +92,22 @@ def unit_C02(src, model='R', dims=(2, 3, 4)):
     return u
 
 
+def unit_C04(src, model='R'):
+    u = Unit('C04', src, model)
+    lib = SpecLib()
+    F = c_vector.build(lib)
+    c_point.build(lib, F)
+    c_quat.build(lib, F)
+    u.spec_texts.append(lib.text())
+    u.contract_fns += [c_quat.contracts, c_point.contracts, c_vector.contracts]
+    c_vector.select_c03(u)
+    c_point.select_c12(u)
+    c_quat.select_c04(u)
+    u.lemma_texts.append(sym.HELPER_LEMMAS)
+    add_laws(u, c_quat.laws(F))
+    return u
+
+
 def unit_C01t(src, model='R'):
     """twin of C01 holding `Transform<Point2<S>> for Matrix3<S>` (see c_matrix.select_c01)"""
     u = Unit('C01t', src, model)
@@ -102,7 +120,7 @@ def build_C03(src, tier):
     return [unit_C03(src, 'R')]
 
 
-UNITS = {'C02': lambda src, tier: [unit_C02(src, 'R')], 'C01': lambda src, tier: [unit_C01(src, 'R'), unit_C01t(src, 'R')], 'C03': build_C03, 'C12': lambda src, tier: [unit_C12(src, 'R')]}
+UNITS = {'C04': lambda src, tier: [unit_C04(src, 'R')], 'C02': lambda src, tier: [unit_C02(src, 'R')], 'C01': lambda src, tier: [unit_C01(src, 'R'), unit_C01t(src, 'R')], 'C03': build_C03, 'C12': lambda src, tier: [unit_C12(src, 'R')]}
 KANI = {}
 META = {
     'C03': dict(min_obligations=350, trust=['A1', 'A2', 'A6'],
